@@ -91,3 +91,14 @@ package stream
 //@   ensures[C12] result == nil ==> in.Version.Major == 1 && in.Version.Minor == 0
 //@   ensures[C12] result == nil && !ws ==> in.XMLNS == "jabber:client" || in.XMLNS == "jabber:server"
 //@   ensures[C12] result == nil && !recv ==> in.ID != ""
+
+// BEGIN enrolment C09 (generated by the safety sweep: every safety obligation of these functions is discharged)
+//@ nopanic [C09] (*reader).Token
+//@ nopanic [C09] Close
+//@ nopanic [C09] Expect
+//@ nopanic [C09] Reader
+//@ nopanic [C09] Send
+//@ nopanic [C09] isWhitespace
+//@ nopanic [C09] negotiateReader
+//@ nopanic [C09] writeAttr
+// END enrolment C09
